@@ -70,6 +70,7 @@ type c16Chain struct {
 	bBlocks  []*fakechain.Block // heads: final branch f+1..b
 	desc     string
 	pairs    map[byte][][2]uint64
+	rel      []string // labels: where matching logs lie relative to registrations of the final chain
 }
 
 type c16Head struct {
@@ -313,6 +314,10 @@ func genC16Chain(rt *rapid.T, exclReReg bool) *c16Chain {
 			default:
 				n = uint64(rapid.IntRange(1, int(maxN)).Draw(rt, ll+"n"))
 			}
+			if len(offsets) == 6 && r+1 <= min(e, maxN) {
+				// keep the aimed log inside the part of the lifetime the chain covers
+				n = max(r+1, min(n, e, maxN))
+			}
 			want := rapid.IntRange(0, 9).Draw(rt, ll+"want") < 7 || (j == 0 && rapid.Bool().Draw(rt, ll+"want0"))
 			spec := genLogFor(rt, ll, &t.def, want)
 			place(ll, n, c16Item{order: order, desc: fmt.Sprintf("log(t%d,%v)", i, want), mk: func(*branchState, uint64) scriptLog { return scriptLog{spec, &refEvent{}} }}, sides)
@@ -348,11 +353,84 @@ func genC16Chain(rt *rapid.T, exclReReg bool) *c16Chain {
 		c.aBlocks = build(tp, 'A', c.f+1, c.a)
 		c.bBlocks = build(nt, 'B', c.f+1, c.b)
 	}
+	c.rel = c.relationLabels()
 	c.desc = fmt.Sprintf("f=%d a=%d b=%d fork=%v %s", c.f, c.a, c.b, c.fork, strings.Join(desc, " "))
 	for i, t := range c.trig {
 		c.desc += fmt.Sprintf(" T%d{eon=%d valid=%v %s}", i, t.eon, t.valid, defDesc(&t.def))
 	}
 	return c
+}
+
+// relationLabels classifies, on the final canonical chain, every block with a
+// log matching an admissibly registered trigger by its position relative to
+// that registration and its expiry.
+func (c *c16Chain) relationLabels() []string {
+	tipBlk := c.pBlocks[len(c.pBlocks)-1]
+	if c.fork {
+		tipBlk = c.bBlocks[len(c.bBlocks)-1]
+	}
+	var blocks []*fakechain.Block
+	for b := tipBlk; b != nil && b.Number() >= 1; b = b.Parent {
+		blocks = append(blocks, b)
+	}
+	set := map[string]bool{}
+	for _, rb := range blocks {
+		mt := c.m.metaByHash[rb.Hash()]
+		if mt == nil {
+			continue
+		}
+		for i := range mt.evs {
+			ev := &mt.evs[i]
+			if ev.table != registeredSpec.name || !ev.admissible {
+				continue
+			}
+			if ev.reReg {
+				set["chain:re-registration"] = true
+			}
+			d := c.defByBytes(ev.cols["definition"].([]byte))
+			r, e := rb.Number(), ev.expiry
+			for _, mb := range blocks {
+				hit := false
+				for j := range mb.Logs {
+					if ok, _ := refMatch(d, &mb.Logs[j]); ok {
+						hit = true
+					}
+				}
+				if !hit {
+					continue
+				}
+				switch m := mb.Number(); {
+				case m < r:
+					set["matching-log:before-registration"] = true
+				case m == r:
+					set["matching-log:registration-block"] = true
+				case m > e+1:
+					set["matching-log:long-after-expiry"] = true
+				case m == e+1:
+					set["matching-log:expiry+1"] = true
+				case m == e:
+					set["matching-log:at-expiry"] = true
+				case m == r+1:
+					set["matching-log:registration+1"] = true
+				default:
+					set["matching-log:inside-lifetime"] = true
+				}
+			}
+		}
+	}
+	if c.fork {
+		for _, ab := range c.aBlocks {
+			if len(ab.Logs) > 0 {
+				set["chain:logs-on-abandoned-branch"] = true
+			}
+		}
+	}
+	var out []string
+	for l := range set {
+		out = append(out, l)
+	}
+	sort.Strings(out)
+	return out
 }
 
 // ---------------------------------------------------------------------------
@@ -649,6 +727,7 @@ func c16Labels(c *c16Chain, hs []c16Head, p *c16Partition, fired map[string]stri
 		}
 	}
 	labels = append(labels, fmt.Sprintf("fired=%d", min(len(fired), 3)))
+	labels = append(labels, c.rel...)
 	return labels, reorg
 }
 
